@@ -254,6 +254,25 @@ impl Layout {
     }
 }
 
+/// Trailer + sequential walk of the length-prefixed blocks, each decompressed and parsed.
+/// No tree or ordering checks (used by C18, which only requires per-block order).
+pub fn walk_blocks(bytes: &[u8]) -> Result<(Trailer, Vec<RawBlock>), String> {
+    let trailer = parse_trailer(bytes).ok_or("no valid trailer")?;
+    let limit = bytes.len() - trailer.size();
+    let mut blocks = Vec::new();
+    let mut off = 0usize;
+    while off < limit {
+        let mut b = read_block_at(bytes, off as u64, limit, trailer.codec)?;
+        b.seq = blocks.len();
+        off += 8 + b.stored_len as usize;
+        blocks.push(b);
+    }
+    if off != limit {
+        return Err(format!("blocks end at {off}, trailer starts at {limit}"));
+    }
+    Ok((trailer, blocks))
+}
+
 /// Full conformance decode of a file. `interval` = the in-block index interval the file is
 /// expected to use (None = do not check the slot positions, only their well-formedness).
 pub fn decode_file(bytes: &[u8], interval: Option<usize>) -> Result<Layout, String> {
